@@ -199,7 +199,13 @@ StringDictionaryRPHTFC::StringDictionaryRPHTFC(IteratorDictString *it,
     for (bucket = 1; bucket <= buckets; bucket++) {
       // Checking the available space in textStrings and
       // realloc if required
-      while ((bytesStrings + (bucketsize * 1000)) > reservedStrings)
+      // (the Hu-Tucker encoded header: up to 4 bytes per char as in tmp, and
+      // bitsrp bits per symbol of the internal strings)
+      size_t required =
+          4 * headers[bucket].size() +
+          ((beginnings[bucket] - beginnings[bucket - 1]) * (size_t)bitsrp) / 8 +
+          8;
+      while ((bytesStrings + required) > reservedStrings)
         reservedStrings = Reallocate(&textStrings, reservedStrings);
 
       bytes = 0;
